@@ -275,6 +275,17 @@ def _run_trace_tlc(module, cfg, trace_file, timeout, diag=False, deque=True, ext
     return out, wall, cmd
 
 
+def _no_null(x):
+    """JSON null cannot be read by TLC: an unexpected None in an observation becomes an integer no spec action produces"""
+    if x is None:
+        return -99999
+    if isinstance(x, dict):
+        return {k: _no_null(v) for k, v in x.items()}
+    if isinstance(x, (list, tuple)):
+        return [_no_null(v) for v in x]
+    return x
+
+
 def validate(module: str, cfg: str, traces: list, *, timeout: int = 900, shards: int = 1,
              extra_env: dict | None = None) -> Validation:
     """Validate traces (list of dicts with 'tid' and 'ev') against specs/<module>.tla.
@@ -287,6 +298,7 @@ def validate(module: str, cfg: str, traces: list, *, timeout: int = 900, shards:
 
     if not traces:
         raise MachineryError("validate() called with no traces")
+    traces = [_no_null(t) for t in traces]
     tids = [t["tid"] for t in traces]
     if len(set(tids)) != len(tids):
         raise MachineryError("duplicate trace ids")
